@@ -239,14 +239,25 @@ func ReadMessage(br *bufio.Reader, resp bool, reqMethod string) (*Parsed, error)
 	return p, nil
 }
 
-// Parse parses exactly one message from b; trailing bytes are an error.
-func Parse(b []byte, resp bool, reqMethod string) (*Parsed, error) {
+// ParsePrefix parses one message from the start of b and returns the bytes
+// that follow it.
+func ParsePrefix(b []byte, resp bool, reqMethod string) (*Parsed, []byte, error) {
 	br := bufio.NewReaderSize(bytes.NewReader(b), 4096)
 	p, err := ReadMessage(br, resp, reqMethod)
 	if err != nil {
+		return p, nil, err
+	}
+	rest, _ := io.ReadAll(br)
+	return p, rest, nil
+}
+
+// Parse parses exactly one message from b; trailing bytes are an error.
+func Parse(b []byte, resp bool, reqMethod string) (*Parsed, error) {
+	p, rest, err := ParsePrefix(b, resp, reqMethod)
+	if err != nil {
 		return p, err
 	}
-	if rest, _ := io.ReadAll(br); len(rest) > 0 {
+	if len(rest) > 0 {
 		return p, fmt.Errorf("%d bytes after the end of the message (%s)", len(rest), Excerpt(rest, 60))
 	}
 	return p, nil
